@@ -13,11 +13,14 @@ META = {
         "counter is the one passed to SnapshotTracker::new); (4) all four lsm_tree::Config::new sites receive the "
         "database's seqno generator as generator and the tracker's visible counter as visible seqno — two distinct roots, "
         "the same pair for the meta keyspace. Together with C05/R-C05.2 (reads at the view's instant) and C14/R-C14.1 "
-        "(all under the journal lock) these are the necessary conditions for a batch to become visible all at once."),
+        "(all under the journal lock) these are the necessary conditions for a batch to become visible all at once. "
+        "(5) every multi-key read of a keyspace tree outside the meta keyspace (iter/range/prefix/len/is_empty/"
+        "first_key_value/last_key_value — each a scan inside lsm-tree) passes the instant of a registered view "
+        "(SnapshotNonce.instant), never SeqNo::MAX or another raw number: a scan at MAX looks into half-applied batches."),
     "not_decided": [
         "the thread schedules themselves",
         "lsm-tree advancing the visible counter on version changes, cross-keyspace read atomicity inside lsm-tree",
-        "Keyspace::get/contains_key/... read at SeqNo::MAX by design (latest committed, not a frozen view)",
+        "single-key point reads Keyspace::get/contains_key/size_of read at SeqNo::MAX by design: one key cannot witness half a batch within one call",
     ],
     "assumptions": ["SequenceNumberCounter::{next,fetch_max,get} are atomic; the tree exposes to a read at instant i exactly versions with seqno < i"],
 }
@@ -148,3 +151,24 @@ def run(ctx):
             okv = vis.k == "call" and vis.a[0] == "snapshot_tracker::SnapshotTracker::get_ref" and any(A.ends_with_field(x, "supervisor", "snapshot_tracker") for x in vis.a[1])
             ctx.ob("R-C06.4", fn, "tree-shares-both-counters", okg and okv,
                    "Config::new(path, generator := %s, visible := %s)" % (A.tstr(gen)[:60], A.tstr(vis)[:80]) + ("" if okg and okv else " — this tree would not see / advance the database-wide counters"), fn.loc(b))
+
+    # ---- R-C06.5 scans (and scan-derived single results) read at a registered view's instant
+    from . import C05
+    SCANS = ("iter", "range", "prefix", "first_key_value", "last_key_value", "is_empty", "len")
+    nscan = 0
+    for fid, fn in sorted(F.fns.items()):
+        if fid.startswith("meta_keyspace::") or fid.startswith("<meta_keyspace::"):
+            continue  # the meta keyspace is internal, written and read under the keyspaces lock
+        for b, t in C05.tree_read_calls(fn):
+            leaf = A.cname(t).rsplit("::", 1)[-1]
+            if leaf not in SCANS:
+                continue
+            og = ctx.og(fn)
+            sa = C05.seqno_args(fn, t)
+            nscan += 1
+            ctx.count_sites()
+            terms = [og.of_operand(x) for x in sa]
+            ok = len(terms) == 1 and any(x.k == "field" and x.a[1] == "instant" for alt in A.alternatives(terms[0]) for x in [alt])
+            ctx.ob("R-C06.5", fn, "scan-%s#%d-at-view-instant" % (leaf, sum(1 for bb, tt in C05.tree_read_calls(fn) if bb < b and A.cname(tt) == A.cname(t)) + 1), ok,
+                   "tree.%s reads at %s" % (leaf, ", ".join(A.tstr(x)[:80] for x in terms)) + ("" if ok else " — not the instant of a registered view: the scan looks into batches that are still being applied (seqno drawn, not yet published)"), fn.loc(b))
+    ctx.floor("R-C06.5", "multi-key tree reads outside the meta keyspace", nscan, 12)
